@@ -32,6 +32,14 @@ except:
     pass
 
 
+def _sort_key(x):
+    # repr() alone is not a total order: customized spyne types share their
+    # parent's repr, which used to leave their relative order to set iteration
+    # order, i.e. to memory addresses.
+    return (repr(x), str(getattr(x, '__namespace__', None)),
+                                       str(getattr(x, '__type_name__', None)))
+
+
 def toposort2(data):
     if len(data) == 0:
         return
@@ -47,7 +55,7 @@ def toposort2(data):
         ordered = set(item for item,dep in data.items() if len(dep) == 0)
         if len(ordered) == 0:
             break
-        yield sorted(ordered, key=lambda x:repr(x))
+        yield sorted(ordered, key=_sort_key)
         data = dict([(item, (dep - ordered)) for item,dep in data.items()
                                                         if item not in ordered])
 
